@@ -205,6 +205,12 @@ def serdeNumber (lex : List Char) : Option JNum :=
       else some (.float bits)                                              -- below `i64::MIN`: `-(significand as f64)`
     else some (.float bits)
 
+/-- reading a number text back as a REAL: the RFC 8259 denotation of the text, rounded to the nearest REAL, with the
+sign of the text (`serdeNumber` read through `as_f64`, before the range check: `Lemmas/PrintReal.lean`
+`readReal_serdeNumber`). Evaluated by the `print` driver and by `Drivers/FactCheck.lean` on the text shipped for every
+finite REAL: the printed text must read back as the same REAL. -/
+def readReal (lex : List Char) : Option Nat := (numValue lex).map (realOfDec (lexNeg lex))
+
 /-! ### the document -/
 
 /-- `Map::insert` with `preserve_order`: a repeated key keeps its position and takes the new value -/
